@@ -2,11 +2,12 @@ SPEC = {
     "id": "C31",
     "props_module": "NDB.Props.C31",
     "corr_modules": ["NDB.Corr.C31"],
-    "theorems": ["C31_search_sound", "C31_search_keeps_sound", "C31_deleted_refuted", "C31_search_existing"],
+    "theorems": ["C31_search_sound", "C31_search_keeps_sound", "C31_deleted_refuted", "C31_search_existing",
+                 "C31_reopen_refuted", "C31_small_exact_checked", "C31_reopen_same_checked"],
     "allowed_axioms": [],
     "harness_pkg": "hx_hnsw",
     "harness_bin": "c31",
-    "n": {"quick": 120, "thorough": 1500},
+    "n": {"quick": 120, "thorough": 1000},
     "harness_timeout": {"quick": 900, "thorough": 3000},
     "trusted_base": [
         "Coq 8.16.1 kernel + vm_compute (no native_compute); coqchk re-check in the thorough tier",
@@ -25,14 +26,15 @@ SPEC = {
     "assumptions": [
         "theorem C31_search_sound quantifies over every history of the model (any levels, re-insertions, deletions, reopens) and every query/k for which the search answers (Ok); "
         "'stored vector' means a vector that was set for that node (the latest one as long as the cache holds it; see K-C31-stale-vector)",
-        "exactness for small indexes (C31_small_exact_full_statement) and invariance under reopen (C31_reopen_same_full_statement) are stated but NOT proved; "
-        "they are tested directly on the implementation on every generated case and through the model correspondence",
+        "exactness for small indexes and invariance under reopen are proved for every state that passes an executable check (small_check / reopen_check); that the reachable states "
+        "of clean histories (no id inserted twice; for exactness also no reopen, <= 2m+1 vectors, <= ef_search, graph tree not split) pass the check is evaluated inside Coq on every generated case, "
+        "not proved (full statements kept as C31_small_exact_full_statement / C31_reopen_same_full_statement)",
     ],
     "manifest": {
         "category": "proof",
-        "text": "Proved for all reachable states of the faithful HNSW model (any insert history with the drawn levels as input, re-insertions, deletions, reopens; page-level B-tree stores with duplicate keys): a search returns at most k results, pairwise different nodes, in non-decreasing distance, each node has a vector that was set and its squared distance is exact for such a vector. Refuted with witness: deleted nodes are returned (K-C31-deleted), with the conditional theorem for histories without deletion. NOT proved, only stated and sampled (direct brute-force comparison on the implementation + model correspondence): exact k-nearest for <= 2m+1 vectors, unchanged results after reopen. Two defects repaired in /repo (stale B-tree roots after reopen; k = 0).",
+        "text": "Proved for all reachable states of the faithful HNSW model (any insert history with the drawn levels as input, re-insertions, deletions, reopens; page-level B-tree stores with duplicate keys): a search returns at most k results, pairwise different nodes, in non-decreasing distance, each node has a vector that was set and its squared distance is exact for such a vector. Refuted with witnesses: deleted nodes are returned (K-C31-deleted, conditional theorem for histories without deletion); a reopen can change the result after a vector was set twice (K-C31-stale-vector, 511-insert witness replayed on the implementation). Proved for every state passing an executable check: the search equals the brute-force k nearest (small_check: connected layer 0, all vectors cached, |S| <= ef_search), and reopening changes no search result (reopen_check: meta and cached vectors read back from the trees). That reachable clean states pass these checks is sampled inside Coq on every generated case, not proved. Two defects repaired in /repo (stale B-tree roots after reopen; k = 0).",
         "design_ref": "DESIGN.md §5 C31",
         "level_note": "Trusted: Coq kernel; hand-written model tied to the code by sampled correspondence (levels taken from a cfg-guarded hook); f32 rounding avoided by input restriction.",
-        "technique": "Rocq proof (invariant on the vector store + search_layer loop invariants) + vm_compute model/implementation correspondence on generated histories + direct brute-force search",
+        "technique": "Rocq proof (store invariant, search_layer loop invariants, BFS-closure completeness argument, relational cache-independence proof) + vm_compute witnesses + model/implementation correspondence on generated histories + direct brute-force search",
     },
 }
